@@ -34,6 +34,7 @@ func Spec() *run.Spec {
 			"Random phases: one case = one generated instance (quaternions/vectors, matrix triple, TRS triple, mesh + transform chain, box + encapsulation history); " +
 			"non-trivial = the instance exercises the law away from its fixed points (rotation angle not ~0 and vector not on the axis; dense matrix with the inverse law evaluated; " +
 			"TRS with non-identity rotation, non-uniform scale and non-zero translation; mesh with vertices; box history in which at least one step grew the box). " +
+			"retained: one case = 2-4 base meshes and 5-10 calls (two placements of one mesh, several meshes through one entry point in a row, chains, array-level calls); every result stays alive and all are re-checked after every call. " +
 			"large: one case = one array of n points (n in {4095, 4096, 4097, 8191, 8192, 8193, 10000, 12289, 16385, 32769, 65537, random 9k-120k}) pushed through all 13 array-, mesh- and box-level entry points, every element checked. " +
 			"Signature = generator kinds x magnitude decades x structural flags.",
 		Assumptions: []string{
@@ -54,10 +55,13 @@ func Spec() *run.Spec {
 			"inverse_law_checked":      500,
 			"mesh_positions":           1000,
 			"aabb_grow_steps":          1000,
+			"retained_results":         5000,
+			"retained_entry_points":    9,
 			"large_cases":              12,
 			"large_entry_points":       13,
 			"large_size_mod_4096":      4,
 		},
+		MinObservedTier: structFloors(),
 		Phases: []run.Phase{
 			{Name: "tables", Cases: func(string) int { return nTables }, Run: tables, Batch: 2},
 			{Name: "rotation-to", Cases: tiered(1500, 20000), Run: rotationTo, Batch: 250},
@@ -66,9 +70,20 @@ func Spec() *run.Spec {
 			{Name: "trs", Cases: tiered(8000, 80000), Run: trsCase, Batch: 1000},
 			{Name: "mesh", Cases: tiered(4000, 50000), Run: meshCase, Batch: 500},
 			{Name: "aabb", Cases: tiered(8000, 80000), Run: aabbCase, Batch: 1000},
+			{Name: "retained", Cases: tiered(3000, 30000), Run: retainedCase, Batch: 250},
 			{Name: "large", Cases: tiered(12, 150), Run: largeCase, Batch: 1, CPUBudgetS: 120},
 		},
 	}
+}
+
+// structFloors: every matrix structure must have been drawn, and had the inverse laws evaluated on it, a minimum number of times.
+func structFloors() map[string]map[string]int64 {
+	out := map[string]map[string]int64{"quick": {}, "thorough": {}}
+	for _, k := range append(append([]string{}, structKinds...), compositeKinds...) {
+		out["quick"]["matrix_struct_"+k], out["thorough"]["matrix_struct_"+k] = 40, 400
+		out["quick"]["inverse_checked_"+k], out["thorough"]["inverse_checked_"+k] = 20, 200
+	}
+	return out
 }
 
 // ---------------------------------------------------------------------------
